@@ -42,6 +42,22 @@ impl Read for PanicReader {
 	}
 }
 
+/// A reader that claims to have read bytes without storing any (within the buffer's size, so the binding's guard cannot
+/// tell): whatever the buffer held before is what the parser then sees.  Harmless when the binding hands out zeroed
+/// memory; a read of uninitialised memory (memcheck, thorough tier) when it does not.
+struct LazyReader {
+	claims: Vec<usize>,
+	calls: usize,
+}
+
+impl Read for LazyReader {
+	fn read(&mut self, buf: &mut [u8]) -> io::Result<usize> {
+		let n = self.claims.get(self.calls).copied().unwrap_or(0).min(buf.len());
+		self.calls += 1;
+		Ok(n)
+	}
+}
+
 /// A writer that panics once it has been given `after` bytes.
 struct PanicWriter {
 	after: usize,
@@ -149,6 +165,17 @@ pub fn generate_and_run(seed: u64, tier: &str, cases_w: &mut dyn Write, impl_w: 
 			d[i] = *rng.pick(&[b'[', b':', 0xff, b'\t', b'&']);
 		}
 		inputs.push(d);
+	}
+	// readers that claim bytes they never stored (run once, not per input)
+	if std::env::var("XT_VERIF_PANIC_CASES").map(|v| v != "only").unwrap_or(true) {
+		for claims in [vec![1usize], vec![7, 7], vec![16384, 3], vec![100000], vec![8192, 8192, 8192]] {
+			let r = catch_unwind(AssertUnwindSafe(|| xt::verif::yaml_chunks(LazyReader { claims: claims.clone(), calls: 0 }).len()));
+			record("reader that stores nothing", if r.is_ok() { "returned" } else { "clean panic" }, &mut st, cases_w, impl_w);
+			let r = catch_unwind(AssertUnwindSafe(|| {
+				xt::translate_reader(LazyReader { claims: claims.clone(), calls: 0 }, Some(xt::Format::Yaml), xt::Format::Json, io::sink()).is_ok()
+			}));
+			record("reader that stores nothing (translate)", if r.is_ok() { "returned" } else { "clean panic" }, &mut st, cases_w, impl_w);
+		}
 	}
 	// which families to run: "all" (default), "none" (no panicking readers/writers), "only" (just those); the memcheck
 	// runs of the thorough tier separate them because a panic that unwinds through libyaml is a listed known finding
